@@ -217,11 +217,27 @@ func ruleBISONNS(c *Ctx) {
 						if g := call.Call.StaticCallee(); g == nil || g.Name() != "Errorf" {
 							continue
 						}
+						hit := false
+						wrongSide := ""
 						for _, g := range flattenConds(governing(b2)) {
 							if g.V == ssa.Value(ex) && g.Pol {
-								c.Ok(rule, key, lk.Pos(), "a nonterminal whose name is a registered token ID is reported (the export would use one word for two symbols)")
-								return
+								hit = true
 							}
+							// a further condition may restrict the report to hits on *tokens*:
+							// index of the previous symbol < NumTokens - and nothing else about NumTokens
+							if l, op, r, ok := cmpNorm(g.V, g.Pol); ok && (strings.Contains(l, "NumTokens") || strings.Contains(r, "NumTokens")) {
+								if !(op == "<" && strings.HasSuffix(r, ".NumTokens") && strings.Contains(l, ".syms[")) {
+									wrongSide = normalizePhi(l) + " " + op + " " + normalizePhi(r)
+								}
+							}
+						}
+						if hit && wrongSide != "" {
+							c.Bad(rule, key, lk.Pos(), "the report of a nonterminal named like a registered ID is restricted by %s: it has to fire when the earlier symbol is a token (index < NumTokens)", wrongSide)
+							return
+						}
+						if hit {
+							c.Ok(rule, key, lk.Pos(), "a nonterminal whose name is a registered token ID is reported (the export would use one word for two symbols)")
+							return
 						}
 					}
 				}
